@@ -27,11 +27,16 @@ package rpc
 //@   ensures sender: !sending(c)
 
 //@ func Conn.handleFinish -> err
-//@   props C08 C09
+//@   props C08 C09 C07
 //@   locktypestate
 //@   partial lock nilmap bounds typeassert post pre:Conn.tryLockSender pre:Conn.lockSender pre:Conn.unlockSender
 //@   requires c != nil && nolocks() && !sending(c)
 //@   ensures sender: !sending(c)
+//@   -- [C07] a Finish that asks for the result capabilities to be released is recorded on the answer
+//@   -- whichever of Return and Finish comes first: when the Return has not been sent yet the request
+//@   -- must survive until sendReturn destroys the answer, otherwise the exports stay counted for ever
+//@   assert before "return nil#0" [C07] relrecorded: ans.flags&finishReceived != 0 && implies(releaseResultCaps, ans.flags&releaseResultCapsFlag != 0)
+//@   assert before "rl, err := ans.destroy()" [C07] relrecorded2: ans.flags&finishReceived != 0 && implies(releaseResultCaps, ans.flags&releaseResultCapsFlag != 0)
 
 //@ func Conn.handleRelease -> err
 //@   props C08 C09
@@ -145,7 +150,9 @@ package rpc
 // the connection-wide invariants they rest on are ASSUMED as preconditions: the embargo table and
 // the embargo id generator grow in step, the import table exists.  Code outside the package
 // (capnp.NewClient, NewPromisedClient, WeakClient.AddRef) cannot reach these tables.
-//@ option callbackframe:Conn.embargoes callbackframe:Conn.embargoID callbackframe:Conn.imports callbackframe:impent callbackframe:embargo
+// (answer.flags is protected by c.mu: a context cancel function or message release function called
+// through a function value cannot reach it - assumed, listed in the evidence)
+//@ option callbackframe:Conn.embargoes callbackframe:Conn.embargoID callbackframe:Conn.imports callbackframe:impent callbackframe:embargo callbackframe:answer.flags
 
 // embargo: the new embargo is stored under the id it returns, inside the table; table and id
 // generator stay in step.
